@@ -117,6 +117,15 @@ CHECKS = {
     note='Trusted: clang lowering (validated per run), irsym (OpenMP sequential model, writer/filesystem stubs, divide_cell contract stub), exact polynomial arithmetic, z3. On the unchanged tree no decision mentions t, so the solver has nothing to split (0 queries); a seeded absolute-position dependence produces t-dependent indices that the solver cannot bound and the native differential confirms.',
     technique='symbolic execution of LLVM IR with exact polynomial normal form in the symbolic translation; z3 for residual t-dependent decisions; native differential replay',
     design='3/C14'),
+ 'C15': dict(
+    level='other',
+    text=('Restricted sense: thread interleavings are not explored. The OpenMP runtime is modelled with one thread per block of the static schedule, threads run to completion in a chosen order, and every load/store of the real code (LLVM IR) inside parallel regions is logged with thread, address and '
+          'critical/atomic context. (A) parallel_exception_handler: placement and type of the throwing elements symbolic (z3 enumerates them), all thread orders for n <= 3: every element processed, the caller receives one of the thrown exceptions as such. '
+          '(B) non-interacting 3-cell tissue, constructor + 2 (4) iterations: in every parallel region no two iterations touch the same byte with a write outside common critical sections / atomics - the classical sufficient condition for bit-identical results under any thread count and schedule. '
+          '(C) cell_divider::run with 2 and 3 cells dividing in one call (divide_cell replaced by its contract): same population for all 6 completion orders, and the loop body checked as in B. mesh_writer sections, libgomp and preemptive interleavings are outside.'),
+    note='Trusted: clang lowering (validated per run; the 3-thread model run is bit-identical to the native run), irsym, the OpenMP model described above, z3. The data race of cell_divider::run found by (C) was confirmed with ThreadSanitizer on the real code and fixed (0cf9c3f).',
+    technique='symbolic execution of LLVM IR under a thread-per-iteration OpenMP model with access logging (independence of iterations as sufficient condition); z3 enumerates failing-element placements; ThreadSanitizer as replay oracle',
+    design='3/C15'),
  'C17': dict(
     level='other',
     text=('Post-tokenisation step only: mesh_reader::get_cell_mesh runs from the LLVM IR on connectivity lists whose every entry is symbolic (0..2^31-1, what std::stoi delivers for [0-9]+ tokens), for all list lengths 0..6 (8 thorough), one and two (three) cells, '
